@@ -214,3 +214,40 @@ def error_from_exception_contract(chk, prefix="C18"):
                       desc="ErrorObject.from_exception(e) is (message = str(e), type = type(e).__name__, no data, no stack trace): the message is a string for every exception, also one constructed with a non-string argument (a FAILED outcome must be JSON-serializable)",
                       sample=f"from_exception of an exception with {shape.replace('_', ' ')}")
     return None
+
+
+def named_serdes(chk, prefix):
+    """The two fixed serializers used where the default extended serializer is not: PassThroughSerDes (callback results: the payload is delivered as it
+    is) and JsonSerDes (payload / result of a chained invoke).  Their round trip is what a replayed callback / invoke result rests on:
+    pass-through is the identity in both directions; JsonSerDes is exactly json.dumps / json.loads with default flags (assumption S applies)."""
+    from pyvc.engine import Engine, Hooks
+    from pyvc.state import St
+    from pyvc.values import fresh
+
+    class H(Hooks):
+        def ext_call(self, eng, st, name, args, kwargs):
+            if name in ("json.dumps", "json.loads"):
+                r = fresh("str", "json_text") if name == "json.dumps" else fresh("any", "json_value")
+                st.emit("json", name=name, args=tuple(args), kwargs=dict(kwargs), result=r)
+                return [("val", r, st)]
+            return None
+    eng = Engine(hooks=H())
+    P = eng.program
+    ctx = None
+    for cname, kind in (("PassThroughSerDes", "identity"), ("JsonSerDes", "json")):
+        cls = P.cls("serdes." + cname)
+        for m, arg in (("serialize", fresh("any", "value")), ("deserialize", fresh("str", "data"))):
+            chk.function(f"serdes.{cname}.{m}")
+            st = St()
+            self_ = st.alloc(cls, {})
+            for k, v, s in eng.run(cls.find_method(m), [self_, arg, ctx], st=st):
+                chk.paths += 1
+                js = [e for e in s.trace if e.kind == "json"]
+                if kind == "identity":
+                    goal = k == "val" and v is arg and not js
+                    desc = f"PassThroughSerDes.{m} returns its argument itself (the callback payload is delivered unchanged, '' included) and cannot raise"
+                else:
+                    want = "json.dumps" if m == "serialize" else "json.loads"
+                    goal = k == "val" and len(js) == 1 and js[0].name == want and len(js[0].args) == 1 and js[0].args[0] is arg and not js[0].kwargs and v is js[0].result
+                    desc = f"JsonSerDes.{m} is exactly {want}(argument) with default flags: the round trip of an invoke payload / result is json.loads(json.dumps(x)) (assumption S)"
+                chk.prove(f"{prefix}.serdes.{cname}.{m}", s.pc, z3.BoolVal(bool(goal)), desc=desc)
